@@ -7,12 +7,17 @@ wt="$1"; patch="$2"; demo="$3"; crate="$4"; filter="$5"
 cd "$wt" || exit 2
 log=/tmp/seed/logs/$(basename "$wt"); mkdir -p /tmp/seed/logs
 dir=${crate#dmntk-}
+# cargo does not rebuild the C library when only a .c / .h file changes (the build script declares no dependency)
+cfix() { if grep -q "decnumber/" "$patch"; then touch "$wt/feel-number/build.rs"; fi; }
 git checkout -q -- . && git clean -fdq -e target -e '*.diff' -e NOTES.md -e '*.md' >/dev/null 2>&1
 git apply "$patch" || { echo "PATCH-DOES-NOT-APPLY"; exit 2; }
+cfix
 cargo nextest run --workspace --no-fail-fast --tool-config-file pb:/w/lib/nextest.toml --profile pb --test-threads 8 --offline > $log-suite.log 2>&1
 echo "suite with change: $(grep Summary $log-suite.log)"
 git apply "$demo" || { echo "DEMO-DOES-NOT-APPLY"; exit 2; }
 cargo test --manifest-path "$wt/$dir/Cargo.toml" --offline "$filter" > $log-demo1.log 2>&1; echo "demo with change: rc=$? $(grep 'test result' $log-demo1.log | head -1)"
 git apply -R "$patch" || { echo "CANNOT-REVERT"; exit 2; }
+cfix
 cargo test --manifest-path "$wt/$dir/Cargo.toml" --offline "$filter" > $log-demo2.log 2>&1; echo "demo without change: rc=$? $(grep 'test result' $log-demo2.log | head -1)"
 git checkout -q -- .
+cfix
